@@ -431,7 +431,7 @@ func (s *genState) dispatch(i, depth int, must, guarded bool) *Expr {
 	for j := 0; j < n; j++ {
 		lead := &Expr{K: KLit, Runes: []rune{perm[j]}}
 		alt := &Expr{K: KSeq}
-		switch k := rapid.IntRange(0, 15).Draw(t, "dprefix"); {
+		switch k := rapid.IntRange(0, 16).Draw(t, "dprefix"); {
 		case k == 0:
 			alt.Kids = append(alt.Kids, Un(KAnd, small("pa")))
 		case k == 1:
@@ -456,6 +456,21 @@ func (s *genState) dispatch(i, depth int, must, guarded bool) *Expr {
 			}
 		case k == 13:
 			alt.Kids = append(alt.Kids, Un(KOpt, &Expr{K: KAlt, Kids: []*Expr{small("no1"), small("no2")}}))
+		case k == 16:
+			// an optional or repeated element whose characters are among those of the
+			// element that follows ("[0-2]? [0-9]"): the case labels of the arm are exactly the
+			// characters of the second element, which nevertheless must be tested
+			w := rune(rapid.IntRange(0, 3).Draw(t, "subw"))
+			lead = &Expr{K: KClass, Items: []Item{{perm[j], perm[j] + w}}}
+			if w == 0 {
+				lead = &Expr{K: KLit, Runes: []rune{perm[j]}}
+			}
+			sub := &Expr{K: KClass, Items: []Item{{perm[j], perm[j] + rune(rapid.IntRange(0, int(w)).Draw(t, "subw2"))}}}
+			if rapid.Bool().Draw(t, "substar") {
+				alt.Kids = append(alt.Kids, Un(KStar, sub))
+			} else {
+				alt.Kids = append(alt.Kids, Un(KOpt, sub))
+			}
 		case k == 15:
 			// a nested choice mixing consuming and non-consuming alternatives, alone or in
 			// front of the leading character
@@ -506,6 +521,17 @@ func (s *genState) dispatch(i, depth int, must, guarded bool) *Expr {
 			alt.Kids = append(alt.Kids, s.expr(i, depth-1, false, true))
 		}
 		e.Kids = append(e.Kids, alt)
+	}
+	if s.pct(35, "dwide") {
+		// a sibling with a large first-character set: it becomes the default arm of the
+		// switch, so that the other alternatives (whatever their size) get case labels
+		wide := &Expr{K: KClass, Items: []Item{{'g', 'v'}}}
+		var w *Expr = wide
+		if s.pct(50, "dwideplus") {
+			w = Un(KPlus, wide)
+		}
+		pos := rapid.IntRange(0, len(e.Kids)).Draw(t, "dwidepos")
+		e.Kids = append(e.Kids[:pos], append([]*Expr{Seq(w)}, e.Kids[pos:]...)...)
 	}
 	if !must && s.pct(15, "demptylast") {
 		e.EmptyLast = true
